@@ -19,7 +19,7 @@ from common import InfraError, Reporter, VERIF  # noqa: E402
 import registry  # noqa: E402
 
 
-def build_and_audit(pid):
+def build_and_audit(pid, tier="quick"):
     """returns (theorem_status: dict name -> 'ok' | reason, notes); serialised across concurrently
     running checks (facts regeneration and `lake build` write into the same tree)"""
     import fcntl
@@ -27,12 +27,12 @@ def build_and_audit(pid):
     with open(lock_path, "w", encoding="utf-8") as lock:
         fcntl.flock(lock, fcntl.LOCK_EX)
         try:
-            return _build_and_audit(pid)
+            return _build_and_audit(pid, tier)
         finally:
             fcntl.flock(lock, fcntl.LOCK_UN)
 
 
-def _build_and_audit(pid):
+def _build_and_audit(pid, tier="quick"):
     notes = []
     try:
         facts = common.regenerate_facts()
@@ -86,6 +86,13 @@ def _build_and_audit(pid):
                     status[t] = "ok"
                 else:
                     status[t] = f"theorem missing or its module ({mod}) does not build"
+    if tier == "thorough" and theorems:
+        # the toolchain's independent re-checker replays the compiled modules of this property's theorems
+        mods = sorted({m for _, m in theorems})
+        rr = common.run(["lake", "env", "leanchecker"] + mods, cwd=common.LEAN_DIR, timeout=3000)
+        notes.append(f"leanchecker on {len(mods)} modules: exit status {rr.returncode}")
+        status["<leanchecker>"] = "ok" if rr.returncode == 0 else \
+            "leanchecker rejects the compiled modules: " + (rr.stdout + rr.stderr)[-400:]
     hits = common.grep_forbidden()
     if hits:
         status["<source-audit>"] = "forbidden construct: " + "; ".join(hits[:5])
@@ -108,7 +115,7 @@ def main():
         return 2
     rep = Reporter(pid)
     try:
-        status, notes, driver_ok = build_and_audit(pid)
+        status, notes, driver_ok = build_and_audit(pid, args.tier)
         broken = {t: s for t, s in status.items() if s != "ok"}
         runner = registry.RUNNERS[pid]
         if args.replay:
